@@ -201,7 +201,7 @@ def tlc(module, cfg, workers=None, env=None, simulate=None, depth=None, extra=()
     """
     res = TlcResult()
     meta = tempfile.mkdtemp(prefix="tlc-meta-", dir=_scratch())
-    javaopts = ["-XX:+UseParallelGC"]
+    javaopts = ["-XX:+UseParallelGC"] if (workers or NCPU) > 2 else ["-XX:+UseSerialGC", "-XX:TieredStopAtLevel=1"]
     if heap:
         javaopts.append("-Xmx" + heap)
     if dfs:
@@ -451,8 +451,31 @@ def run(cmd, timeout=60, env=None, cwd=None, stdin=None):
         return None, ex.stdout or b"", ex.stderr or b""
 
 
-def pmap(fn, items, workers=None):
-    """Parallel map with threads (the work is in subprocesses)."""
-    from concurrent.futures import ThreadPoolExecutor
-    with ThreadPoolExecutor(max_workers=workers or NCPU) as ex:
-        return list(ex.map(fn, items))
+_PFN = None
+_PITEMS = None
+
+
+def _pcall(i):
+    return _PFN(_PITEMS[i])
+
+
+def pmap(fn, items, workers=None, threads=False):
+    """Parallel map.  Default: forked worker processes (the projection work is
+    Python code, threads would serialise on the GIL); fn and items are
+    inherited through fork, only indices and results are pickled."""
+    items = list(items)
+    if not items:
+        return []
+    if threads or len(items) < 4:
+        from concurrent.futures import ThreadPoolExecutor
+        with ThreadPoolExecutor(max_workers=workers or NCPU) as ex:
+            return list(ex.map(fn, items))
+    import multiprocessing as mp
+    global _PFN, _PITEMS
+    _PFN, _PITEMS = fn, items
+    ctx = mp.get_context("fork")
+    n = min(workers or NCPU, len(items))
+    with ctx.Pool(n) as pool:
+        out = pool.map(_pcall, range(len(items)), chunksize=max(1, len(items) // (n * 8)))
+    _PFN = _PITEMS = None
+    return out
